@@ -20,18 +20,19 @@ def sh(cmd, cwd=None, timeout=3600):
 def main():
     wt, sid, props = sys.argv[1], sys.argv[2], sys.argv[3:]
     out = {"seed": sid}
-    rc, o = sh("git diff -- . ':!patch.diff' ':!demo.sh' ':!NOTES.md' > /tmp/_seed.diff; wc -l < /tmp/_seed.diff", cwd=wt)
+    rc, o = sh("git diff -- fastpasta alice_protocol_reader Cargo.toml > /tmp/_seed_%s.diff; wc -l < /tmp/_seed_%s.diff" % (sid, sid), cwd=wt)
     rc, o = sh("cargo test --workspace --no-fail-fast --offline 2>&1 | grep -E '^test result' | awk '{p+=$4; f+=$6} END {print p, f}'", cwd=wt)
     out["tests_with_change"] = o.strip()
     rc1, o1 = sh("bash demo.sh %s" % wt, cwd=wt)
     out["demo_with_change_exit"] = rc1
-    sh("git stash", cwd=wt)
+    # never `git stash` here: the stash is shared between the worktrees of /repo
+    sh("git apply -R /tmp/_seed_%s.diff" % sid, cwd=wt)
     rc0, o0 = sh("bash demo.sh %s" % wt, cwd=wt)
     out["demo_without_change_exit"] = rc0
-    sh("git stash pop", cwd=wt)
+    sh("git apply /tmp/_seed_%s.diff" % sid, cwd=wt)
     d = os.path.join(VERIF, "seeded", sid)
     os.makedirs(d, exist_ok=True)
-    shutil.copy("/tmp/_seed.diff", os.path.join(d, "patch.diff"))
+    shutil.copy("/tmp/_seed_%s.diff" % sid, os.path.join(d, "patch.diff"))
     for f in ("demo.sh", "NOTES.md"):
         if os.path.exists(os.path.join(wt, f)):
             shutil.copy(os.path.join(wt, f), os.path.join(d, f))
